@@ -218,6 +218,30 @@ def run(chk, prog):
               "stochastic model: y -= %s; noise-free fixed point %s must be the zero bin of the energy axis" % (v, fp), "FP::applyTo:stochastic:fixed-point:%s" % fp)
     chk.check(sp.simplify(sp.diff(det, y) - sp.Symbol("_dampdecr", real=True)) == 0, "R3", A.loc(fa, {"line": a.line}),
               "stochastic model: the damping rate per step is the damping decrement", "FP::applyTo:stochastic:rate:%s" % sp.diff(det, y))
+    # the stochastic model keeps the unit width: y -= (y-zb)*d + N(0, sigma^2) (in cells of the energy axis) has the stationary variance
+    # sigma^2/(2d - d^2); a natural width of 1 is 1/delta1 cells, so to first order in d  sigma^2 * delta1^2 == 2*d, with d and sigma as the
+    # constructor sets them (_dampdecr and the second argument of the normal distribution)
+    from ..algebra import Translator, Unconvertible
+    fctor = [c_ for c_ in prog.fns("vfps::FokkerPlanckMap::FokkerPlanckMap") if c_.get("inits")]
+    A.require(len(fctor) == 1, "FokkerPlanckMap constructor not found")
+    fctor = fctor[0]
+    chk.used(fctor)
+    ini = {i_["target"]: i_["expr"] for i_ in fctor["inits"] if i_.get("ikind") == "member" and isinstance(i_.get("expr"), dict)}
+    A.require("_normdist" in ini and "_dampdecr" in ini, "FokkerPlanckMap: initialisers of _normdist / _dampdecr not found")
+    nd = [y_ for y_ in A.walk(ini["_normdist"]) if y_.get("k") in ("CXXConstructExpr", "CXXTemporaryObjectExpr") and "normal_distribution" in (y_.get("callee") or y_.get("ctype") or "")
+          and len([a_ for a_ in y_.get("args", []) if a_.get("k") != "CXXDefaultArgExpr"]) == 2]
+    A.require(nd, "FokkerPlanckMap: normal_distribution(mean, sigma) not found in the initialiser of _normdist")
+    trn = Translator(hooks=[G.make_hook()])
+    try:
+        mean_, sig_ = trn.conv(nd[0]["args"][0]), trn.conv(nd[0]["args"][1])
+        dd_ = trn.conv(ini["_dampdecr"])
+    except Unconvertible as e_:
+        raise AnalysisBroken("FokkerPlanckMap: noise amplitude not translatable (%s)" % e_)
+    site_n = A.loc(fctor, {"line": nd[0]["line"]})
+    chk.check(mean_ == 0, "R3", site_n, "stochastic model: the noise has zero mean (%s)" % mean_, "FP::ctor:noise-mean:%s" % mean_)
+    bal = sp.simplify(sig_ ** 2 * G.AX(1, "delta") ** 2 - 2 * dd_)
+    chk.check(bal == 0, "R3", site_n, "stochastic model: noise variance (%s)^2 in cells of the energy axis balances the damping decrement %s at unit natural width "
+              "(sigma^2*delta1^2 - 2*d = %s)" % (sig_, dd_, bal), "FP::ctor:noise-amplitude:%s" % bal)
     a1 = [x for x in sf.accesses if a_is(x, "offset", "+=") and vals["approximation1"] in case_of(x)]
     A.require(len(a1) == 1, "FokkerPlanckMap::applyTo: approximation1 accumulation not found")
     want = (sp.Symbol("yi", real=True) - sp.Symbol("h.index", real=True)) * sp.Symbol("h.weight", real=True)
